@@ -355,6 +355,9 @@ func ruleIndexDiscipline(cx *Ctx) []Obligation {
 				continue
 			}
 			badIdx := ""
+			boundPath := lenArgPath(l.Bound, 0)
+			readsBound := false
+			var indexed []string
 			for b := range l.Blocks {
 				inner := fi.LoopsOf[b.Index]
 				if len(inner) == 0 || inner[len(inner)-1] != l {
@@ -362,13 +365,21 @@ func ruleIndexDiscipline(cx *Ctx) []Obligation {
 				}
 				for _, ins := range b.Instrs {
 					var idx ssa.Value
+					var base ssa.Value
 					switch x := ins.(type) {
 					case *ssa.IndexAddr:
-						idx = x.Index
+						idx, base = x.Index, x.X
 					case *ssa.Index:
-						idx = x.Index
+						idx, base = x.Index, x.X
 					default:
 						continue
+					}
+					if idx == l.IndexVal {
+						ap := accessPath(base, 0)
+						indexed = append(indexed, ap)
+						if ap == boundPath {
+							readsBound = true
+						}
 					}
 					if _, isConst := idx.(*ssa.Const); isConst {
 						continue
@@ -384,6 +395,10 @@ func ruleIndexDiscipline(cx *Ctx) []Obligation {
 					}
 				}
 			}
+			if badIdx == "" && !readsBound {
+				sort.Strings(indexed)
+				badIdx = "the loop is bounded by the length of " + boundPath + " but never reads that list at its own index (it indexes " + strings.Join(dedup(indexed), ", ") + "): elements are dropped or the copy panics when the lengths differ"
+			}
 			if badIdx != "" {
 				obs = append(obs, bad(key, desc, badIdx, where))
 			} else {
@@ -391,10 +406,115 @@ func ruleIndexDiscipline(cx *Ctx) []Obligation {
 			}
 		}
 	}
+	// raw 64-bit leaves become variables as they are: the argument of gl.NewVariable in the decoder is the loaded
+	// document value itself, not the result of a computation on it (a reduction would merge v and v+p)
+	nv := P.Func("goldilocks", "NewVariable")
+	nWrap := 0
+	for _, f := range fns {
+		for _, b := range f.Blocks {
+			for _, ins := range b.Instrs {
+				c, ok := ins.(*ssa.Call)
+				if !ok || nv == nil || c.Common().StaticCallee() != nv || len(c.Common().Args) != 1 {
+					continue
+				}
+				nWrap++
+				key := "C19/O19.5/raw-u64-identity/" + P.FnName(f)
+				desc := "a 64-bit document value is wrapped into a variable exactly as decoded (loaded from the raw structure and converted to frontend.Variable, nothing else)"
+				a := c.Common().Args[0]
+				for {
+					if mi, ok := a.(*ssa.MakeInterface); ok {
+						a = mi.X
+						continue
+					}
+					if ct, ok := a.(*ssa.ChangeType); ok {
+						a = ct.X
+						continue
+					}
+					break
+				}
+				u, isLoad := a.(*ssa.UnOp)
+				bt, isU64 := a.Type().Underlying().(*types.Basic)
+				switch {
+				case isLoad && u.Op == token.MUL && isU64 && bt.Kind() == types.Uint64:
+					obs = append(obs, good(key, desc, P.Pos(c.Pos())+" "+accessPath(u.X, 0)))
+				case isU64 && bt.Kind() == types.Uint64:
+					if _, isParam := a.(*ssa.Parameter); isParam {
+						obs = append(obs, good(key, desc, P.Pos(c.Pos())+" parameter "+a.Name()))
+					} else {
+						obs = append(obs, bad(key, desc, "the wrapped value is computed ("+a.String()+"), not the decoded value itself", P.Pos(c.Pos())))
+					}
+				default:
+					obs = append(obs, bad(key, desc, "the wrapped value is not a decoded 64-bit value: "+a.String(), P.Pos(c.Pos())))
+				}
+			}
+		}
+	}
+	if nWrap < 4 {
+		obs = append(obs, undecided("C19/O19.5/raw-u64-identity/floor", "the decoder's variable constructors are found", fmt.Sprintf("%d calls of gl.NewVariable in the decoder (4 confirmed by hand)", nWrap)))
+	}
 	if nLoops < 8 {
 		obs = append(obs, undecided("C19/O19.4/position/floor", "the decoder's copy loops are found", fmt.Sprintf("%d loops", nLoops)))
 	}
 	return obs
+}
+
+// accessPath renders the chain of field / index / load steps a value is read through (index values by SSA name,
+// so two separately emitted loads of the same place compare equal)
+func accessPath(v ssa.Value, depth int) string {
+	if depth > 12 {
+		return "…"
+	}
+	switch x := v.(type) {
+	case *ssa.UnOp:
+		if x.Op == token.MUL {
+			return accessPath(x.X, depth+1)
+		}
+	case *ssa.FieldAddr:
+		return accessPath(x.X, depth+1) + "." + fieldName(x.X.Type(), x.Field)
+	case *ssa.Field:
+		return accessPath(x.X, depth+1) + "." + fieldName(types.NewPointer(x.X.Type()), x.Field)
+	case *ssa.IndexAddr:
+		return accessPath(x.X, depth+1) + "[" + x.Index.Name() + "]"
+	case *ssa.Index:
+		return accessPath(x.X, depth+1) + "[" + x.Index.Name() + "]"
+	case *ssa.Alloc:
+		// a local copy of a parameter reads as the parameter
+		n := 0
+		var src ssa.Value
+		for _, r := range *x.Referrers() {
+			if st, ok := r.(*ssa.Store); ok && st.Addr == ssa.Value(x) {
+				n++
+				src = st.Val
+			}
+		}
+		if p, ok := src.(*ssa.Parameter); ok && n == 1 {
+			return p.Name()
+		}
+		if x.Comment != "" {
+			return x.Comment
+		}
+	case *ssa.Convert:
+		return accessPath(x.X, depth+1)
+	case *ssa.ChangeType:
+		return accessPath(x.X, depth+1)
+	}
+	return v.Name()
+}
+
+// lenArgPath: the access path of x in a bound len(x)
+func lenArgPath(v ssa.Value, depth int) string {
+	if depth > 3 {
+		return "?"
+	}
+	switch x := v.(type) {
+	case *ssa.Call:
+		if b, ok := x.Common().Value.(*ssa.Builtin); ok && b.Name() == "len" {
+			return accessPath(x.Common().Args[0], 0)
+		}
+	case *ssa.Convert:
+		return lenArgPath(x.X, depth+1)
+	}
+	return "?"
 }
 
 func boundIsFullLen(v ssa.Value, depth int) bool {
